@@ -56,7 +56,9 @@ def run(ctx):
 
 def source(rng, xr, exact=False):
     nf = int(rng.choice([2, 3, 5, 9, 15]))
-    f, fm = gen.freq_grid(rng, nf=nf)
+    cd = str(rng.choice(["float64", "float64", "float32", "intdir"]))
+    f, fm = gen.freq_grid(rng, nf=nf, dtype="float32" if cd == "float32" else "float64")
+    f = f.astype("float64")
     th, dd, dmeta = gen.dir_grid(rng, nd=int(rng.choice([3, 4, 6, 8, 12, 24, 36])), full=True, exact=exact)
     lnames, lsizes = gen.lead_dims(rng, nlead=int(rng.choice([0, 0, 1, 2])), maxsize=3)
     npos = int(np.prod(lsizes)) if lsizes else 1
@@ -80,12 +82,21 @@ def source(rng, xr, exact=False):
         x = x.assign_coords(dir=th0)
         last = x.isel(dir=[0]).assign_coords(dir=[360.0])
         x = xr.concat([x, last], dim="dir")
+    if cd == "float32":
+        x = x.assign_coords(freq=x.freq.values.astype("float32"), dir=x.dir.values.astype("float32"))
+    elif cd == "intdir" and np.allclose(x.dir.values, np.round(x.dir.values)):
+        x = x.assign_coords(dir=np.round(x.dir.values).astype("int64"))
+    else:
+        cd = "float64" if cd == "intdir" else cd
+    x.attrs["_coord_dtype"] = cd
     return x, stored, lnames
 
 
 def regrid(ctx, rng, xr, utils):
     rec = ctx.rec
     x, stored, lnames = source(rng, xr)
+    cd = x.attrs.pop("_coord_dtype")
+    T = 3e4 if cd == "float32" else 1.0      # float32 coordinates: interpolation weights carry ~1e-7
     f = x.freq.values.astype("float64")
     th = x.dir.values.astype("float64")
     nf, nd = len(f), len(th)
@@ -116,7 +127,7 @@ def regrid(ctx, rng, xr, utils):
             tht = float(rng.choice([0.0, ddt / 2, rng.uniform(0, ddt)])) + ddt * np.arange(ndt)
     maintain = bool(rng.random() < 0.8) or mode == "identity"
     via = str(rng.choice(["interp", "regrid_spec", "dataset"])) if mode != "like" else "interp_like"
-    key = "%s|src=%s|nf=%d|nd=%d|lead=%d|m0=%s|via=%s" % (mode if mode != "freq" and mode != "both" else mode + ":" + kind, stored, nf, nd, len(lnames), maintain, via)
+    key = "%s|src=%s|coords=%s|nf=%d|nd=%d|lead=%d|m0=%s|via=%s" % (mode if mode != "freq" and mode != "both" else mode + ":" + kind, stored, cd, nf, nd, len(lnames), maintain, via)
     try:
         if via == "interp":
             r = x.spec.interp(freq=ft, dir=tht, maintain_m0=maintain)
@@ -153,7 +164,7 @@ def regrid(ctx, rng, xr, utils):
         sc = max(np.abs(ei).max(), 1e-300)
         # identity on the source grid
         if mode == "identity":
-            ok, worst = close(eo, ei, 1e-12, atol=1e-12 * sc)
+            ok, worst = close(eo, ei, 1e-12 * T, atol=1e-12 * T * sc)
             (rec.ok("identity", key) if ok else rec.bad("identity", key, dict(det, position=p, worst_over_tol=worst, input=ei, output=eo), "regrid-not-identity-on-source-grid"))
             continue
         # non-negativity, zero above the highest source frequency
@@ -174,17 +185,19 @@ def regrid(ctx, rng, xr, utils):
                     rec.ok("reference", key)
                 continue
             h_out = hs2(eo, fo, dd_out)
-            ok = abs(h_out - h_in) <= 2e-9 * h_in
+            ok = abs(h_out - h_in) <= 2e-9 * T * h_in
             (rec.ok("conservation", key, sample={"hs_in": np.sqrt(h_in), "hs_out": np.sqrt(h_out)}) if ok else
              rec.bad("conservation", key, dict(det, position=p, hs_in=np.sqrt(h_in), hs_out=np.sqrt(h_out)), "regrid-variance-not-conserved"))
             ref = ref * (h_in / h_ref)
-        ok, worst = close(eo, ref, 1e-9, atol=1e-9 * max(np.abs(ref).max(), 1e-300))
+        ok, worst = close(eo, ref, 1e-9 * T, atol=1e-9 * T * max(np.abs(ref).max(), 1e-300))
         (rec.ok("reference", key) if ok else rec.bad("reference", key, dict(det, position=p, worst_over_tol=worst, output=eo, reference=ref, input=ei), "regrid-differs-from-linear-interpolant"))
 
 
 def rotate(ctx, rng, xr):
     rec = ctx.rec
     x, stored, lnames = source(rng, xr, exact=True)
+    cd = x.attrs.pop("_coord_dtype")
+    T = 3e4 if cd == "float32" else 1.0
     if stored == "dup360":
         x = x.isel(dir=slice(0, -1))
         stored = "sorted"
@@ -195,7 +208,7 @@ def rotate(ctx, rng, xr):
     kind = str(rng.choice(["bins", "bins", "full_turn", "any", "any", "zero"]))
     k = int(rng.integers(-2 * nd, 2 * nd))
     angle = {"bins": k * dd, "full_turn": float(rng.choice([360.0, -360.0, 720.0])), "zero": 0.0}.get(kind, float(rng.uniform(-720, 720)))
-    key = "rotate:%s|src=%s|nf=%d|nd=%d|lead=%d" % (kind, stored, nf, nd, len(lnames))
+    key = "rotate:%s|src=%s|coords=%s|nf=%d|nd=%d|lead=%d" % (kind, stored, cd, nf, nd, len(lnames))
     try:
         r = x.spec.rotate(angle)
     except Exception as e:
@@ -220,21 +233,21 @@ def rotate(ctx, rng, xr):
             rec.bad("rotate", key, dict(det, position=p, min=float(eo.min())), "rotate-negative-energy")
             continue
         h_in, h_out = hs2(ei, f, dd), hs2(eo, f, dd)
-        if h_in > 0 and abs(h_out - h_in) > 2e-9 * h_in:
+        if h_in > 0 and abs(h_out - h_in) > 2e-9 * T * h_in:
             rec.bad("rotate", key, dict(det, position=p, hs_in=np.sqrt(h_in), hs_out=np.sqrt(h_out)), "rotate-changes-hs")
             continue
         # any angle: relabelled source interpolated linearly on the circle back onto the grid, one factor
         refu = ref_interp(ei, f, (th + angle) % 360.0, None, th)
         h_ref = hs2(refu, f, dd)
         if h_in > 0 and h_ref > 1e-14 * h_in:
-            ok, worst = close(eo, refu * (h_in / h_ref), 1e-9, atol=1e-9 * sc)
+            ok, worst = close(eo, refu * (h_in / h_ref), 1e-9 * T, atol=1e-9 * T * sc)
             if not ok:
                 rec.bad("rotate", key, dict(det, position=p, worst_over_tol=worst, output=eo, expected=refu * (h_in / h_ref)), "rotate-differs-from-circular-interpolant")
                 continue
         if kind in ("bins", "full_turn", "zero"):
             kk = int(round(angle / dd))
             want = np.roll(ei[:, order], kk, axis=1)[:, inv]     # energy at d moves to d + angle
-            ok, worst = close(eo, want, 1e-9, atol=1e-9 * sc)
+            ok, worst = close(eo, want, 1e-9 * T, atol=1e-9 * T * sc)
             if not ok:
                 rec.bad("rotate", key, dict(det, position=p, bins=kk, worst_over_tol=worst, output=eo, expected=want), "rotate-by-whole-bins-is-not-a-circular-shift")
                 continue
